@@ -218,9 +218,19 @@ def run(F, rep, tier):
     G = reach.Graph(F)
     same_code_rule(F, G, rep)
     fragmentation_rule(F, G, rep)
+    # every parser reads from the caller's stream itself: a buffering adapter would consume more of the stream than bytes_read accounts for
+    import streamid
+    streamid.slp_rule(F, rep, 'fragmentation.stream')
     accounting_rule(F, rep)
     monotone_frames_rule(F, G, rep)
     C13.forwarders(F, rep)
+    # "the frames completed so far equal the corresponding prefix of the final game" is observed through the in-progress row
+    # view: the mutable transpose_one family reads each row field from the same-named column at the row index, and a frame's
+    # items are exactly item_offset.start_end(i)
+    import model
+    M13 = model.Model(F, rep, want=("m_transpose", "with_capacity"))
+    model.rule_L3(rep, M13, sibs=("m_transpose",))
+    C13.container_rule(F, rep, M13, fams=("mutable",))
     rep.control("linear normaliser: 1 + 1 + (size - 1) == 1 + size", linear.eq(linear.add({"": 2}, linear.add({"size": 1}, {"": 1}, -1)), {"": 1, "size": 1}))
     rep.trusted += ["byteorder read_* / read_exact consume exactly their width / buffer length on success, independent of how the stream fragments reads"]
     rep.not_decided.append("equality of two runs over all fragmentations as such; decided: shared code, absence of short-read-sensitive calls, byte accounting, monotone frame count, row-view wiring")
